@@ -11,6 +11,7 @@ import (
 	"bytes"
 	"compress/gzip"
 	"encoding/json"
+	"errors"
 	"fmt"
 	"io"
 	"net"
@@ -37,6 +38,8 @@ type c03View struct {
 	Declared  int        `json:"declared"`
 	MustClose bool       `json:"mustClose"`
 	Frame     string     `json:"frame"`
+	// the body in effect when the handler returns is a stream
+	StreamFinal bool `json:"streamFinal"`
 }
 
 type c03Vec struct {
@@ -145,9 +148,16 @@ func (r *c03PlainReader) Read(p []byte) (int, error) {
 type c03CloseReader struct {
 	c03PlainReader
 	closed int
+	fail   bool // Close returns an error
 }
 
-func (r *c03CloseReader) Close() error { r.closed++; return nil }
+func (r *c03CloseReader) Close() error {
+	r.closed++
+	if r.fail {
+		return errors.New("c03: the stream's close failed")
+	}
+	return nil
+}
 
 // c03EOFReader returns its last bytes together with io.EOF and an empty read before them,
 // both allowed by the io.Reader contract.
@@ -177,7 +187,10 @@ func (r *c03EOFReader) Read(p []byte) (int, error) {
 	return n, nil
 }
 
-const c03Flavours = 6
+const c03Flavours = 7
+
+// the flavour whose Close returns an error
+const c03CloseFails = 6
 
 func c03NewStream(content []byte, flavour int) io.Reader {
 	c := append([]byte(nil), content...)
@@ -192,6 +205,8 @@ func c03NewStream(content []byte, flavour int) io.Reader {
 		return &c03PlainReader{b: c, step: 1}
 	case 4:
 		return &c03EOFReader{b: c, step: 1 << 20}
+	case c03CloseFails:
+		return &c03CloseReader{c03PlainReader: c03PlainReader{b: c, step: 1 << 20}, fail: true}
 	default:
 		return &c03EOFReader{b: c, step: 1200}
 	}
@@ -337,13 +352,26 @@ func c03Judge(v *c03View, k c03Kind, raw []byte, eof, last, nextMismatch bool, j
 		return out, nil, true
 	}
 
+	// the stream in effect fails to close: the write of this response fails after the body; the
+	// peer gets the response completely or cut short, and the connection is given up
+	closeFails := v.StreamFinal && j.flav%c03Flavours == c03CloseFails
+
 	br := bufio.NewReader(bytes.NewReader(raw))
 	resp, err := http.ReadResponse(br, &http.Request{Method: k.Method})
+	if closeFails && (err != nil || !eof) {
+		if !eof {
+			bad("close-error-connection-kept", "the body stream's Close failed but the connection stayed open")
+		}
+		return out, nil, true
+	}
 	if err != nil {
 		bad("unparsable", "net/http cannot parse the response: %v; wire=%s", err, c03Clip(raw))
 		return out, nil, true
 	}
 	body, berr := io.ReadAll(resp.Body)
+	if berr != nil && closeFails {
+		return out, nil, true
+	}
 	if berr != nil {
 		bad("body-read-error", "net/http body read: %v after %d bytes; wire=%s", berr, len(body), c03Clip(raw))
 		return out, nil, true
@@ -407,6 +435,9 @@ func c03Judge(v *c03View, k c03Kind, raw []byte, eof, last, nextMismatch bool, j
 	}
 	if !okBody {
 		bad("body", "peer body %s (%d bytes), reference %v; head=%s", c03Clip(plain), len(plain), v.Bodies, c03Clip(raw))
+	}
+	if closeFails {
+		return out, nil, true
 	}
 	// what follows this response
 	closedHere := eof && len(rest) == 0
@@ -756,7 +787,7 @@ func TestVerifC03RespFraming(t *testing.T) {
 					view, tags := j.view()
 					nextMismatch, laterMismatch := false, false
 					for x := ji + 1; x < len(b.jobs); x++ {
-						if nv, _ := b.jobs[x].view(); nv.Mismatch {
+						if nv, _ := b.jobs[x].view(); nv.Mismatch || (nv.StreamFinal && b.jobs[x].flav%c03Flavours == c03CloseFails) {
 							laterMismatch = true
 							nextMismatch = nextMismatch || x == ji+1
 						}
